@@ -887,6 +887,10 @@ def glue_trio() -> None:
         # str copy of a name that is an instance of a str subclass, and
         # the function may rename the thread it runs on.
         task_register = frame.pyframe.f_locals.get("task_register")
+        if "task_register" not in worker_fn.__code__.co_freevars:
+            # Older Trio: the worker function doesn't refer to it, so all
+            # we have is the thread's name
+            task_register = None
         inner_frame: Optional[types.FrameType] = None
         previous: Optional[types.FrameType] = None
         for thread in threading.enumerate():
